@@ -374,6 +374,219 @@ def explore(rng, n):
     return chunks("x", ops, 1)
 
 
+
+# ---------------------------------------------------------------------------------- stream 4
+# transcribed kernels (`k.*`, bit-exact tie) and the exact reflections (`refl.*`).  Every generator
+# below is aimed at one decision of the anchored code; props/C08.coverage.md lists which.
+def lg(a):
+    return math.lgamma(a) if a > 0 else 0.0
+
+
+def clampp(p):
+    return min(max(p, .000002), .999998)
+
+
+def kernel_grid():
+    """the guard grids of stream 1, on the transcribed kernels"""
+    ops = []
+    for x, a in itertools.product(X_SPECIAL, SHAPE_SPECIAL):
+        ops.append("k.ig %s %s %s" % (hx(x), hx(a), hx(lg(a))))
+    for p, v in itertools.product(P_SPECIAL, SHAPE_SPECIAL + [0.1, 400.0]):
+        ops.append("k.qchisq %s %s" % (hx(p), hx(v)))
+    for x, a, b in itertools.product(X01_SPECIAL, BSHAPE_SPECIAL, BSHAPE_SPECIAL):
+        ops.append("k.ibeta %s %s %s" % (hx(x), hx(a), hx(b)))
+    PQ = [-1.0, -1e-300, -0.0, 0.0, 1e-6, 0.25, 0.5, 0.75, 1 - 1e-6, 1.0, nxt(1.0, 1), 2.0]
+    for p, a, b in itertools.product(PQ, QBSHAPE_SPECIAL, QBSHAPE_SPECIAL):
+        ops.append("k.qbeta %s %s %s" % (hx(p), hx(a), hx(b)))
+    return chunks("kgrid", ops)
+
+
+def ig_point(rng):
+    """(x, shape) for incompleteGamma: both branches, the switch and its neighbours, the far-tail
+    guard (factor == 0 on the continued-fraction side), factor == 0 on the series side, the
+    rescaling of the continued fraction (|pn[4]| >= 1e30), pn[5] == 0"""
+    a = log_uniform(rng, 0.05, 200)
+    k = rng.randrange(12)
+    if k <= 3:
+        x = gamma_x(rng, a, 1.0)
+    elif k == 4:
+        x = nxt(a, rng.randint(-2, 2)) if a > 1 else nxt(1.0, rng.randint(-2, 2))      # the switch
+    elif k == 5:
+        x = (a + 40 * math.sqrt(a) + 700) * log_uniform(rng, 1, 1e3)                    # factor == 0, CF side
+    elif k == 6:
+        a = log_uniform(rng, 150, 1e4); x = a * log_uniform(rng, 1e-4, 0.05)            # factor == 0, series side
+    elif k == 7:
+        x = log_uniform(rng, 30, 600)                                                   # long CF: rescaling
+    elif k == 8:
+        a = float(rng.randint(1, 6)); x = a + rng.randint(0, 40)                        # integer shape: CF terminates (an == 0)
+    elif k == 9:
+        a = log_uniform(rng, 1e3, 1e6); x = a * rng.uniform(0.5, 1.5)                   # long loops
+    elif k == 10:
+        x = log_uniform(rng, 1e-300, 1e-5)
+    else:
+        a = rng.choice([1.0, 2.0, 0.5, 1.5]); x = rng.choice([1.0, 2.0, 0.5, 1.5, 3.0])
+    return x, a
+
+
+def qchisq_point(rng):
+    """(p, v): the three starting values (closed form incl. its early return, v <= .32, Wilson-Hilferty
+    incl. its tail correction) and their cut-offs"""
+    k = rng.randrange(10)
+    p = clampp(pq(rng))
+    if k == 0:
+        v = log_uniform(rng, 0.1, 400)
+    elif k == 1:                                   # closed form, early return ch < 5e-7
+        v = log_uniform(rng, 0.1, 1.5); p = clampp(log_uniform(rng, 2e-6, 1e-2))
+    elif k == 2:                                   # closed form, refined
+        v = log_uniform(rng, 0.5, 20); p = clampp(math.exp(-v / 1.24) * rng.uniform(0.01, 0.99))
+    elif k == 3:                                   # v <= .32 iteration
+        v = log_uniform(rng, 0.1, 0.32); p = clampp(1 - log_uniform(rng, 2e-6, 0.5) if rng.random() < 0.5 else rng.uniform(0.3, 0.999))
+    elif k == 4:                                   # cut-off v = -1.24 log p
+        p = clampp(rng.uniform(0.01, 0.99)); v = nxt(-1.24 * math.log(p), rng.randint(-2, 2))
+    elif k == 5:                                   # cut-off v = .32
+        v = nxt(.32, rng.randint(-2, 2)); p = clampp(rng.uniform(0.8, 0.999998))
+    elif k == 6:                                   # Wilson-Hilferty with tail correction ch > 2.2 v + 6
+        v = log_uniform(rng, 0.4, 50); p = clampp(1 - log_uniform(rng, 2e-6, 0.02))
+    elif k == 7:
+        v = log_uniform(rng, 50, 400)
+    elif k == 8:
+        v = rng.choice([1.0, 2.0, 4.0, 10.0, 100.0])
+    else:
+        v = log_uniform(rng, 0.1, 400); p = rng.choice([.000002, .999998, 0.5])
+    return p, v
+
+
+def ibeta_point(rng):
+    """(x, a, b): every arm of incompleteBeta and of its three sub-kernels"""
+    al, be = log_uniform(rng, 0.1, 200), log_uniform(rng, 0.1, 200)
+    k = rng.randrange(16)
+    if k <= 3:
+        x = beta_x(rng, al, be)
+    elif k == 4:      # direct power series, logarithmic normalisation (a + b >= maxgam)
+        al, be = rng.choice([(log_uniform(rng, 0.1, 8), rng.uniform(172, 200)), (rng.uniform(100, 200), rng.uniform(80, 200))])
+        x = min(1 / be, 0.95) * rng.random()
+    elif k == 5:      # power series after the swap, logarithmic normalisation
+        al, be = rng.uniform(172, 200), log_uniform(rng, 0.1, 8)
+        x = 1 - min(1 / al, 0.95) * rng.random()
+    elif k == 6:      # power series with |a log x| >= log(VERY_BIG): tiny x
+        x = log_uniform(rng, 1e-300, 1e-30); al = log_uniform(rng, 1, 200); be = log_uniform(rng, 0.1, 1 / 0.95)
+    elif k == 7:      # power series underflowing: t < log(VERY_TINY) -> 0
+        x = log_uniform(rng, 1e-300, 1e-10); al = rng.uniform(50, 200); be = rng.uniform(130, 200)
+    elif k == 8:      # continued fraction, logarithmic normalisation (a + b >= maxgam), both sides of the mean
+        al, be = rng.uniform(60, 200), rng.uniform(112, 200)
+        m = al / (al + be); sd = math.sqrt(al * be / ((al + be) ** 2 * (al + be + 1)))
+        x = min(max(m + sd * rng.uniform(-8, 8), 1e-3), 1 - 1e-3)
+    elif k == 9:      # continued fraction far in a tail: y < minlog -> 0, and 1 - VERY_TINY on the swapped side
+        al, be = rng.uniform(100, 200), rng.uniform(100, 200)
+        x = rng.choice([rng.uniform(0.01, 0.15), rng.uniform(0.85, 0.99)])
+    elif k == 10:     # direct normalisation, swapped side with t < VERY_TINY: beta log(1/(1-x)) in (40, 53.4)
+        al, be = log_uniform(rng, 0.2, 5), rng.uniform(10, 150)
+        x = 1 - math.exp(-rng.uniform(40, 53.4) / be)
+    elif k == 11:     # between the mode and the mean: fe2
+        al = log_uniform(rng, 1.2, 60); be = al * log_uniform(rng, 1.5, 20)
+        mode, mean = (al - 1) / (al + be - 2), al / (al + be)
+        x = rng.uniform(mode, mean)
+        if rng.random() < 0.5:
+            x, al, be = 1 - x, be, al
+    elif k == 12:     # small shapes (k2 = b - 1 < 0 etc.), x near the ends
+        al, be = log_uniform(rng, 0.1, 1), log_uniform(rng, 0.1, 1)
+        x = rng.choice([rng.random(), nxt(0.95, rng.randint(-2, 3)), 1 - log_uniform(rng, 1e-16, 0.05)])
+    elif k == 13:     # slow continued fraction: 300 rounds without convergence / rescaling
+        al, be = log_uniform(rng, 0.1, 200), log_uniform(rng, 0.1, 200)
+        x = rng.choice([0.96, 0.99, 0.999, 1 - 1e-6, 1 - 1e-10])
+    elif k == 14:     # exactly the mean / x = 0.95 / beta x = 1
+        x = rng.choice([al / (al + be), 0.95, min(1 / be, 0.9), nxt(1 / be, 1) if be > 1.1 else 0.95])
+    else:
+        al, be = rng.choice([1.0, 2.0, 0.5, 3.0]), rng.choice([1.0, 2.0, 0.5, 3.0]); x = rng.choice([0.25, 0.5, 0.75, 0.96])
+    return min(max(x, 5e-324), nxt(1.0, -1)), al, be
+
+
+def qbeta_point(rng):
+    """(p, a, b): the four start values, the reset, both tails"""
+    k = rng.randrange(10)
+    p = pq(rng)
+    qa, qb = log_uniform(rng, 0.3, 200), log_uniform(rng, 0.3, 200)
+    if k == 0:
+        pass
+    elif k == 1:      # both shapes > 1
+        qa, qb = log_uniform(rng, 1.01, 200), log_uniform(rng, 1.01, 200)
+    elif k == 2:      # a shape <= 1, t <= 0 start
+        qa, qb = log_uniform(rng, 0.3, 1), log_uniform(rng, 0.3, 0.6); p = rng.uniform(1e-6, 0.1) if rng.random() < 0.5 else 1 - rng.uniform(1e-6, 0.1)
+    elif k == 3:      # a shape <= 1, t <= 1 start
+        qa, qb = log_uniform(rng, 0.3, 1), log_uniform(rng, 1, 200)
+    elif k == 4:      # a shape <= 1, last start
+        qa, qb = log_uniform(rng, 0.3, 1), log_uniform(rng, 0.3, 3); p = rng.uniform(0.2, 0.8)
+    elif k == 5:      # start outside (lower, upper): reset
+        qa, qb = log_uniform(rng, 0.3, 0.5), log_uniform(rng, 50, 200); p = rng.choice([1e-6, 1 - 1e-6, rng.random()])
+    elif k == 6:      # very unequal shapes
+        qa, qb = log_uniform(rng, 0.3, 5), log_uniform(rng, 80, 200)
+        if rng.random() < 0.5:
+            qa, qb = qb, qa
+    elif k == 7:
+        p = rng.choice([0.5, nxt(0.5, 1), nxt(0.5, -1)])
+    elif k == 8:
+        qa = qb = log_uniform(rng, 0.3, 200)
+    else:
+        qa, qb = rng.choice([1.0, 2.0, 0.5]), rng.choice([1.0, 2.0, 0.5])
+    return p, qa, qb
+
+
+
+def kernel_extension(rng, n):
+    """beyond the property's parameter ranges but inside the code's domain (bit-exact tie and exact
+    reflections only): beta quantile with shapes in [0.02, 0.3) - the `t <= 0` start (cpp:490), the
+    reset of a start outside (3e-308, 1 - 2.22e-16) (cpp:512), Newton trial points below 0 or equal
+    to 1 (cpp:538, 542); incomplete beta with shapes up to 1e6 - the continued fractions run into
+    their cap of 300 rounds (cpp:771, 884) and rescale upwards (cpp:875)"""
+    ops, refl = [], []
+    for _ in range(n):
+        k = rng.randrange(5)
+        if k == 0:
+            p, qa, qb = pq(rng), log_uniform(rng, 0.02, 0.3), log_uniform(rng, 0.02, 0.3)
+        elif k == 1:
+            p, qa, qb = pq(rng), log_uniform(rng, 0.02, 0.3), log_uniform(rng, 1, 200)
+            if rng.random() < 0.5:
+                qa, qb = qb, qa
+        if k <= 1:
+            ops.append("k.qbeta %s %s %s" % (hx(p), hx(qa), hx(qb)))
+            refl.append("refl.qbeta %s %s %s" % (hx(p), hx(qa), hx(qb)))
+            continue
+        al, be = log_uniform(rng, 1e3, 1e6), log_uniform(rng, 1e3, 1e6)
+        if k == 2:      # near the mean: incompletebetafe, cap of 300 rounds
+            m = al / (al + be); sd = math.sqrt(al * be / ((al + be) ** 2 * (al + be + 1)))
+            x = m + sd * rng.uniform(-8, 8)
+        elif k == 3:    # between the mode and the mean: incompletebetafe2
+            x = rng.uniform((al - 1) / (al + be - 2), al / (al + be))
+            if rng.random() < 0.5:
+                x, al, be = 1 - x, be, al
+        else:           # shapes just above the range
+            al, be = log_uniform(rng, 200, 1e3), log_uniform(rng, 200, 1e3)
+            x = beta_x(rng, al, be)
+        x = min(max(x, 1e-9), 1 - 1e-9)
+        ops.append("k.ibeta %s %s %s" % (hx(x), hx(al), hx(be)))
+        refl.append("refl.ibeta %s %s %s" % (hx(x), hx(al), hx(be)))
+    return chunks("kext", ops, 200) + chunks("reflext", refl, 100)
+
+
+def kernel_random(rng, n):
+    # the reflections go into cases of their own: a case is judged up to its first issue, and a broken
+    # tie on a `k.*` op must not hide a false theorem-backed predicate on a `refl.*` op
+    ops, refl = [], []
+    for _ in range(n):
+        x, a = ig_point(rng)
+        ops.append("k.ig %s %s %s" % (hx(x), hx(a), hx(lg(a))))
+        p, v = qchisq_point(rng)
+        ops.append("k.qchisq %s %s" % (hx(p), hx(v)))
+        x, al, be = ibeta_point(rng)
+        ops.append("k.ibeta %s %s %s" % (hx(x), hx(al), hx(be)))
+        refl.append("refl.ibeta %s %s %s" % (hx(x), hx(al), hx(be)))
+        if rng.random() < 0.34:
+            p, qa, qb = qbeta_point(rng)
+            ops.append("k.qbeta %s %s %s" % (hx(p), hx(qa), hx(qb)))
+            refl.append("refl.qbeta %s %s %s" % (hx(p), hx(qa), hx(qb)))
+    return chunks("krnd", ops, 200) + chunks("refl", refl, 100)
+
+
 def generate(seed, tier):
     rng = random.Random(seed)
     big = tier == "thorough"
@@ -381,6 +594,10 @@ def generate(seed, tier):
     cases += guard_grid(rng, tier)
     cases += guard_random(rng, 100000 if big else 10000)
     cases += norm_tie(rng, 200000 if big else 20000)
+    # theorem-backed streams first (the check reports the first few distinct failing clauses)
+    cases += kernel_grid()
+    cases += kernel_random(rng, 60000 if big else 6000)
+    cases += kernel_extension(rng, 15000 if big else 1500)
     cases += explore(rng, 40000 if big else 3000)
     return cases
 
@@ -412,14 +629,137 @@ def coverage_extra(cases, answers):
                     worst[key] = err
             except (ValueError, IndexError):
                 raised += 1
-    return {"search_ops": counts, "search_worst_deviation": {k: float("%.3g" % v) for k, v in sorted(worst.items())},
+    out = branch_coverage(cases)
+    out.update({"search_ops": counts, "search_worst_deviation": {k: float("%.3g" % v) for k, v in sorted(worst.items())},
             "search_unparsed_or_raised": raised, "search_reference": SCIPY_NOTE["status"],
             "search_note": "x.* ops are exploration of the numeric kernels on grids/random points (accuracy vs scipy.special, "
                            "closed-form special cases, identities, monotonicity, inverse relations); they support, and are not "
-                           "part of, obligations/discharged"}
+                           "part of, obligations/discharged"})
+    return out
+
+
+# ---------------------------------------------------------------------------------- branch coverage
+# outcomes that no generated family executes, with the reason (keyed by routine, source text, gcov branch number)
+NOT_EXECUTED = {
+    ("incompleteGamma", "if (pn[5] == 0)", 1):
+        "pn[5] == 0: the denominators of the convergents are positive for x >= p (the only region where the continued "
+        "fraction is entered) and the division by 1e30 keeps them far from underflow; exact cancellation only",
+    ("qChisq", "if ((t = incompleteGamma (p1, xx, g)) < 0)", 1):
+        "incompleteGamma reports an error only for p1 = ch/2 < 0 (xx = v/2 > 0 after the guard): a negative iterate; "
+        "would itself be a violation of guards_total_qChisq (error value inside the domain) - never seen",
+    ("qBeta", "for (i_pb = 0; i_pb < niterations; i_pb++)", 1):
+        "2000 Newton rounds without convergence: not reached by any family (at most a few dozen rounds are seen)",
+    ("qBeta", "for (i_inn = 0, g = 1; i_inn < niterations; i_inn++)", 1):
+        "2000 step halvings (g = 3^-2000 underflows to 0 long before, giving tx = xinbta inside (0,1) and a break): "
+        "needs a NaN y",
+    ("qBeta", "if (tx != 0. && tx != 1.)", 1):
+        "trial point exactly 0: xinbta - adj == 0 needs adj == xinbta bit for bit",
+    ("qBeta", "if (tx != 0. && tx != 1.)", 3):
+        "trial point exactly 1: reached about twice per run by `kext` (a shape < 0.1 against a large one), absent at some seeds",
+    ("incompletebetafe", "if (qk != 0)", 1): "qk == 0 exactly: exact cancellation only",
+    ("incompletebetafe", "if (r != 0)", 1): "pk == 0 exactly: exact cancellation only",
+    ("incompletebetafe", "if (fabs(qk) + fabs(pk) > big)", 0):
+        "convergents above 2^52: in every family (shapes 0.1 .. 1e6, > 3e6 rounds observed) the convergents shrink, "
+        "only the upward rescaling occurs",
+    ("incompletebetafe", "if ((fabs(qk) < biginv) || (fabs(pk) < biginv))", 2):
+        "|pk| < 2^-52 while |qk| >= 2^-52: pk/qk converges to a value of order 1, qk falls below first",
+    ("incompletebetafe2", "if (qk != 0)", 1): "qk == 0 exactly: exact cancellation only",
+    ("incompletebetafe2", "if (r != 0)", 1): "pk == 0 exactly: exact cancellation only",
+    ("incompletebetafe2", "if (fabs(qk) + fabs(pk) > big)", 0): "as for incompletebetafe",
+    ("incompletebetafe2", "if ((fabs(qk) < biginv) || (fabs(pk) < biginv))", 2): "as for incompletebetafe",
+}
+# outcomes executed only by the families beyond the property's ranges (`kext`)
+ONLY_BEYOND_RANGE = {
+    ("qBeta", "if (t <= 0.)", 0): "needs 1 - 1/(9 qq) + y sqrt(1/(9 qq)) <= 0, i.e. a working shape qq < ~0.12; the property's quantile range is [0.3, 200]",
+    ("qBeta", "if (xinbta <= lower || xinbta >= upper)", 1): "start value <= 3e-308: shapes < ~0.15",
+    ("qBeta", "if (xinbta <= lower || xinbta >= upper)", 2): "start value >= 1 - 2.22e-16: shapes < ~0.15",
+    ("qBeta", "if (tx >= 0. && tx <= 1.)", 1): "Newton trial point below 0: shapes < 0.3",
+    ("qBeta", "if (tx != 0. && tx != 1.)", 3): "Newton trial point exactly 1: shapes < 0.3 against a large one",
+    ("incompletebetafe", "while (n != 300);", 1): "300 rounds without convergence: shapes >= ~1e4",
+    ("incompletebetafe2", "while (n != 300);", 1): "300 rounds without convergence: shapes >= ~1e4",
+    ("incompletebetafe2", "if ((fabs(qk) < biginv) || (fabs(pk) < biginv))", 1): "upward rescaling in fe2: shapes >= ~300",
+}
+
+
+def _distcov():
+    import importlib.util
+    spec = importlib.util.spec_from_file_location(
+        "gen_distcov", os.path.join(os.path.dirname(os.path.dirname(os.path.abspath(__file__))), "tools", "gen_distcov.py"))
+    m = importlib.util.module_from_spec(spec); spec.loader.exec_module(m)
+    return m
+
+
+def branch_coverage(cases):
+    """per-routine branch coverage of the anchored code under exactly these scripts (gcov); set
+    VERIF_C08_BRANCHCOV=0 to skip"""
+    if os.environ.get("VERIF_C08_BRANCHCOV", "1") == "0":
+        return {"branch_coverage": {"status": "skipped (VERIF_C08_BRANCHCOV=0)"}}
+    try:
+        table, missing, rows = _distcov().measure(cases)
+    except Exception as e:  # no gcov, no compiler ...
+        return {"branch_coverage": {"status": "unavailable: %r" % (e,)}}
+    unexplained = []
+    for name, fn, line, text, counts in rows:
+        for b, n in counts:
+            if n == 0 and (name, text, b) not in NOT_EXECUTED:
+                unexplained.append("%s %s:%d branch %d: %s" % (name, fn, line, b, text))
+    return {"branch_coverage": {k: "%d / %d (%s)" % (v["executed"], v["branch_outcomes"], v["lines"]) for k, v in table.items()},
+            "branch_outcomes_total": sum(v["branch_outcomes"] for v in table.values()),
+            "branch_outcomes_executed": sum(v["executed"] for v in table.values()),
+            "branch_outcomes_not_executed": missing,
+            "branch_outcomes_not_executed_unexplained": unexplained,
+            "branch_coverage_note": "gcov -b on RandomTools.cpp / RandomTools.h (-O0 --coverage) under exactly the scripts of this run; "
+                                    "every outcome not executed is explained in props/C08.coverage.md"}
+
+
+def write_coverage_md(seed=1):
+    """props/C08.coverage.md from real runs of the quick tier (with and without the families beyond the ranges)"""
+    D = _distcov()
+    rng = random.Random(seed)
+    inrange = []
+    inrange += guard_grid(rng, "quick"); inrange += guard_random(rng, 10000); inrange += norm_tie(rng, 20000)
+    inrange += explore(rng, 3000); inrange += kernel_grid(); inrange += kernel_random(rng, 6000)
+    allc = inrange + kernel_extension(rng, 1500)
+    old = []
+    rng0 = random.Random(seed)
+    old += guard_grid(rng0, "quick"); old += guard_random(rng0, 10000); old += norm_tie(rng0, 20000); old += explore(rng0, 3000)
+    t_old, _, r_old = D.measure(old)
+    t_in, _, r_in = D.measure(inrange)
+    t_all, _, r_all = D.measure(allc)
+    L = ["# C08 - branch coverage of the anchored routines by the generated scripts", "",
+         "Measured with `gcov -b` (RandomTools.cpp and the inline wrappers of RandomTools.h compiled `-O0 --coverage`,",
+         "`tools/gen_distcov.py`) under exactly the scripts of the quick tier, seed %d. A *branch outcome* is one `branch N` line" % seed,
+         "of gcov: each operand of `&&` / `||` counts with both outcomes; exception edges of calls (`(throw)`) are not counted.",
+         "Every run of `tools/check.py C08` repeats the measurement and stores it in `evidence/C08.json`",
+         "(`coverage.branch_coverage`, `coverage.branch_outcomes_not_executed`). Written by `python3 gens/C08.py coverage`.", "",
+         "Columns: round 1 = the scripts of round 1 (guard grids, pNorm/qNorm tie, exploration); in range = round 2 quick tier",
+         "restricted to the property's parameter ranges; all = with the families beyond the ranges (`kext`: beta quantile",
+         "shapes in [0.02, 0.3), incomplete beta shapes up to 1e6; bit-exact tie and exact reflections only).", "",
+         "## Per routine", "", "| routine | lines | branch outcomes | round 1 | in range | all |", "|---|---|---|---|---|---|"]
+    for k in t_all:
+        L.append("| %s | %s | %d | %d | %d | %d |" % (k, t_all[k]["lines"], t_all[k]["branch_outcomes"], t_old[k]["executed"], t_in[k]["executed"], t_all[k]["executed"]))
+    L.append("| **total** | | %d | %d | %d | %d |" % tuple(sum(t[k][f] for k in t) for t, f in ((t_all, "branch_outcomes"), (t_old, "executed"), (t_in, "executed"), (t_all, "executed"))))
+    L += ["", "## Outcomes not executed inside the property's ranges", "",
+          "| routine | line | condition | gcov branch | executed by `kext` | why |", "|---|---|---|---|---|---|"]
+    for (name, fn, line, text, c_in), (_, _, _, _, c_all) in zip(r_in, r_all):
+        for (b, n), (_, na) in zip(c_in, c_all):
+            if n == 0:
+                why = NOT_EXECUTED.get((name, text, b)) or ONLY_BEYOND_RANGE.get((name, text, b)) or "UNEXPLAINED"
+                L.append("| %s | %s:%d | `%s` | %d | %s | %s |" % (name, fn, line, text.replace("|", "\\|"), b, "yes (%d)" % na if na else "no", why.replace("|", "\\|")))
+    L += ["", "## Every branch outcome (hits: round 1 / in range / all)", "", "| routine | line | condition | hits per gcov branch |", "|---|---|---|---|"]
+    for (name, fn, line, text, c_old), (_, _, _, _, c_in), (_, _, _, _, c_all) in zip(r_old, r_in, r_all):
+        L.append("| %s | %s:%d | `%s` | %s |" % (name, fn, line, text.replace("|", "\\|"),
+                                                  "; ".join("%d: %d / %d / %d" % (b, o, i_, a) for (b, o), (_, i_), (_, a) in zip(c_old, c_in, c_all))))
+    p = os.path.join(os.path.dirname(os.path.dirname(os.path.abspath(__file__))), "props", "C08.coverage.md")
+    with open(p, "w") as f:
+        f.write("\n".join(L) + "\n")
+    return p
 
 
 if __name__ == "__main__":
+    if len(sys.argv) > 1 and sys.argv[1] == "coverage":
+        print(write_coverage_md(int(sys.argv[2]) if len(sys.argv) > 2 else 1))
+        sys.exit(0)
     cs = generate(int(sys.argv[1]) if len(sys.argv) > 1 else 1, sys.argv[2] if len(sys.argv) > 2 else "quick")
     hist = {}
     for c in cs:
